@@ -5,6 +5,7 @@ import (
 	"encoding/json"
 	"fmt"
 	"io"
+	"strings"
 	"testing"
 	"time"
 
@@ -148,6 +149,30 @@ func c16OverwriteCheck(c c16Overwrite) error {
 	if err := compareWalkers(pj2, allWalkers, mc); err != nil {
 		return fmt.Errorf("no-copy mode (input intact): %v", err)
 	}
+	// both results are independent of what the process does next with OTHER objects: unrelated calls on fresh objects
+	// (short and long documents, both string modes, Parse and ParseND, a rejected document, a serialize round trip)
+	{
+		short := []byte(`{"unrelated":"short document","x":["y\n",1]}`)
+		long := []byte(`{"unrelated":"` + strings.Repeat("long document ", 60) + `","x":["y\n",1,` + strings.Repeat(`"zzzz",`, 80) + `2]}`)
+		for k, u := range [][]byte{short, long, short} {
+			up, uerr := simdjson.Parse(append([]byte(nil), u...), nil, simdjson.WithCopyStrings(k%2 == 0))
+			if uerr != nil {
+				return bugf("unrelated document rejected: %v", uerr)
+			}
+			us := simdjson.NewSerializer()
+			if _, uerr = us.Deserialize(us.Serialize(nil, *up), nil); uerr != nil {
+				return bugf("unrelated round trip failed: %v", uerr)
+			}
+			_, _ = simdjson.ParseND(append(append(append([]byte(nil), u...), '\n'), u...), nil, simdjson.WithCopyStrings(k%2 == 1))
+			_, _ = simdjson.Parse([]byte(`{"unrelated":[1,2}`), nil)
+		}
+		if err := compareWalkers(pj, allWalkers, mc); err != nil {
+			return fmt.Errorf("copy mode, after unrelated calls on other objects: %v", err)
+		}
+		if err := compareWalkers(pj2, allWalkers, mc); err != nil {
+			return fmt.Errorf("no-copy mode (input intact), after unrelated calls on other objects: %v", err)
+		}
+	}
 	// the same with a ParsedJson that served another no-copy parse before, read through accessor destinations
 	// (Iter.Object(dst), Iter.Array(dst)) that were used on that earlier document
 	{
@@ -271,6 +296,13 @@ func c16ClonesCheck(c c16Clones) error {
 	if err != nil {
 		return bugf("%v", err)
 	}
+	// ... and that has itself been a Clone destination for a large, then a small document before (lengths of a recycled
+	// destination shrink and grow)
+	for _, prev := range []string{`{"big":[` + strings.Repeat(`"0123456789abcdef",17,`, 40) + `null]}`, `[1]`} {
+		if pp, perr := simdjson.Parse([]byte(prev), nil); perr == nil {
+			old = pp.Clone(old)
+		}
+	}
 	objs := []*simdjson.ParsedJson{pj, pj.Clone(nil), pj.Clone(old), pj.Clone(&simdjson.ParsedJson{})}
 	models := [][]*rj.Node{roots, cloneRoots(roots), cloneRoots(roots), cloneRoots(roots)}
 	names := []string{"original", "clone(nil)", "clone(reused dst)", "clone(zero-value dst)"}
@@ -302,11 +334,20 @@ func c16ClonesCheck(c c16Clones) error {
 			return err
 		}
 	}
+	// the original (and the other clones) survive a CLONE being recycled as the reuse argument of a later parse
+	if _, err := simdjson.Parse([]byte(`{"recycled":["a","clone","\n\t\u00e9",54321,"`+string(bytes.Repeat([]byte("c"), 300))+`"]}`), objs[1]); err != nil {
+		return bugf("recycling parse failed: %v", err)
+	}
+	for _, i := range []int{0, 2, 3} {
+		if err := checkAgainstModel(objs[i], models[i], c.ND, fullInvariants); err != nil {
+			return fmt.Errorf("after clone(nil) was recycled by a later Parse: %s no longer matches its document: %v", names[i], err)
+		}
+	}
 	// a deep clone survives the original being recycled as the reuse argument of a later parse
 	if _, err := simdjson.Parse([]byte(`{"recycled":["the","original","object","\n\t\u00e9",12345,"`+string(bytes.Repeat([]byte("r"), 300))+`"]}`), objs[0]); err != nil {
 		return bugf("recycling parse failed: %v", err)
 	}
-	for i := 1; i < len(objs); i++ {
+	for i := 2; i < len(objs); i++ {
 		if err := checkAgainstModel(objs[i], models[i], c.ND, fullInvariants); err != nil {
 			return fmt.Errorf("after the original was recycled by a later Parse: %s no longer matches its document: %v", names[i], err)
 		}
